@@ -46,17 +46,26 @@ func genC17(r *h.Rng, tier string, idx int) *h.Plan {
 	if churn {
 		p.Cfg["mode"] = "parentchurn"
 	}
+	// the location's own cacheTTL property (milliseconds) overrides the system's
+	// TTL for that location from its next load on: one more way to a finite TTL
+	ttlprop := !churn && r.P(1, 3)
+	if ttlprop {
+		p.Cfg["mode"] = "cachettlprop"
+	}
 	for i := 0; i < n; i++ {
 		l := r.Pick(locs)
 		if r.P(1, 12) {
 			l = "ghost" // never created
 		}
-		weights := []int{8, 3, 5, 5, 3, 1, 2, 4, 1, 1, 4, 1, 0, 0, 1}
+		weights := []int{8, 3, 5, 5, 3, 1, 2, 4, 1, 1, 4, 1, 0, 0, 1, 1}
+		if ttlprop {
+			weights[15] = 4
+		}
 		if churn {
 			// parent churn: the parent list is an ordinary property fact, so it
 			// changes through SetParents, Clear, a written "!parents" fact and the
 			// removal of that fact; inherited reads in between
-			weights = []int{6, 1, 2, 7, 2, 1, 1, 3, 5, 3, 3, 4, 2, 2, 1}
+			weights = []int{6, 1, 2, 7, 2, 1, 1, 3, 5, 3, 3, 4, 2, 2, 1, 1}
 		}
 		switch r.Weighted(weights) {
 		case 0:
@@ -109,6 +118,13 @@ func genC17(r *h.Rng, tier string, idx int) *h.Plan {
 			p.Ops = append(p.Ops, h.Op{K: "addfact", Loc: locs[i0], J: map[string]interface{}{"!parents": []interface{}{locs[i0+1]}}})
 		case 13:
 			p.Ops = append(p.Ops, h.Op{K: "remfact", Loc: locs[r.Intn(len(locs)-1)], Id: "!.parents"})
+		case 15:
+			if r.P(1, 4) {
+				p.Ops = append(p.Ops, h.Op{K: "remfact", Loc: l, Id: "!.cacheTTL"})
+			} else {
+				v := []interface{}{0.0, 1.0, 3.0, 1500.0, 100000.0, "soon", -5.0}[r.Intn(7)]
+				p.Ops = append(p.Ops, h.Op{K: "addfact", Loc: l, J: map[string]interface{}{"!cacheTTL": v}})
+			}
 		case 14:
 			// the location is deleted (and, where existence is checked, created again by a later "create")
 			p.Ops = append(p.Ops, h.Op{K: "delete", Loc: l})
@@ -284,11 +300,11 @@ func execC17(t *testing.T, plan *h.Plan, trace bool) *h.Result {
 			}
 			twins = append(twins, &c17Twin{name: name, core: ce, ce: checks})
 		}
-		for _, ttl := range []time.Duration{sys.Never, time.Millisecond, sys.Forever} {
+		for k, ttl := range []time.Duration{sys.Never, time.Millisecond, sys.Forever, time.Second, sys.Never} {
 			for _, ce := range []bool{false, true} {
 				mem, _ := core.NewMemStorage(nil)
 				store := h.NewSimStorage(mem)
-				e, err := hs.NewSvcEngine(hs.SvcConfig{State: state, TTL: ttl, CheckExistence: ce}, store, hs.NewSimCron(true))
+				e, err := hs.NewSvcEngine(hs.SvcConfig{State: state, TTL: ttl, CheckExistence: ce, NoCachePending: k == 4}, store, hs.NewSimCron(true))
 				if err != nil {
 					panic(err)
 				}
@@ -297,6 +313,9 @@ func execC17(t *testing.T, plan *h.Plan, trace bool) *h.Result {
 					name = fmt.Sprintf("ttl=forever,ce=%v", ce)
 				} else if ttl == sys.Never {
 					name = fmt.Sprintf("ttl=never,ce=%v", ce)
+					if k == 4 {
+						name = fmt.Sprintf("ttl=never,nopending,ce=%v", ce)
+					}
 				}
 				twins = append(twins, &c17Twin{name: name, svc: e, store: store, ce: ce})
 			}
